@@ -42,6 +42,17 @@ def scalar_builtins():
   B['sub'] = ('({0} - {1})', list(itertools.product(nums, nums)), lambda a, b: a - b)
   B['mul'] = ('({0} * {1})', list(itertools.product(nums, nums)), lambda a, b: a * b)
   B['neg'] = ('(-{0})', [(a,) for a in nums], lambda a: -a)
+  pos = [1, 2, 3, 10]
+  B['neg_sub'] = ('(-{0} - {1})', list(itertools.product(pos, pos)), lambda a, b: -a - b)              # a leading unary minus binds to its operand only
+  B['neg_sub3'] = ('(-{0} - {1} - {2})', list(itertools.product(pos[:3], repeat=3)), lambda a, b, c: -a - b - c)
+  B['neg_add'] = ('(-{0} + {1})', list(itertools.product(pos, pos)), lambda a, b: -a + b)
+  B['neg_mul_sub'] = ('(-{0} * {1} - {2})', list(itertools.product(pos[:3], repeat=3)), lambda a, b, c: -a * b - c)
+  B['sub_sub'] = ('({0} - {1} - {2})', list(itertools.product(pos[:3], repeat=3)), lambda a, b, c: a - b - c)
+  B['sub_add'] = ('({0} - {1} + {2})', list(itertools.product(pos[:3], repeat=3)), lambda a, b, c: a - b + c)
+  B['add_mul'] = ('({0} + {1} * {2})', list(itertools.product(pos[:3], repeat=3)), lambda a, b, c: a + b * c)
+  B['mul_add'] = ('({0} * {1} + {2})', list(itertools.product(pos[:3], repeat=3)), lambda a, b, c: a * b + c)
+  B['sub_mul'] = ('({0} - {1} * {2})', list(itertools.product(pos[:3], repeat=3)), lambda a, b, c: a - b * c)
+  B['cmp_arith'] = ('({0} + {1} < {2} * 2)', list(itertools.product(pos[:3], repeat=3)), lambda a, b, c: a + b < c * 2)
   B['div'] = ('({0} / {1})', [(a, b) for a in nums for b in nums if b != 0 and (isinstance(a, float) or isinstance(b, float) or a % b == 0)], lambda a, b: div(a, b))
   B['mod'] = ('({0} % {1})', [(a, b) for a in (0, 1, 2, 3, 5, 7) for b in (1, 2, 3)], lambda a, b: a % b)
   for op, f in (('==', lambda a, b: a == b), ('!=', lambda a, b: a != b), ('<', lambda a, b: a < b), ('<=', lambda a, b: a <= b), ('>', lambda a, b: a > b), ('>=', lambda a, b: a >= b)):
